@@ -11,8 +11,8 @@ def run():
     os.makedirs(wd)
     # address arithmetic of the specification: every scratchpad mask keeps an 8-byte access inside 2 MiB, etc. (part of MCIsa's DecodeFacts)
     # engines over guarded memory: scratchpad between PROT_NONE pages, dataset extent ending at a PROT_NONE page
-    recs = c04.record_vm(ck, wd, ['adversarial', 'codegen', 'oracle'])
-    lines = recs['adversarial'] + recs['oracle'] + recs['codegen']
+    recs = c04.record_vm(ck, wd, ['adversarial', 'codegen', 'codelen', 'oracle'])
+    lines = recs['adversarial'] + recs['oracle'] + recs['codegen'] + recs['codelen']
     c04.validate_vm(ck, 'c06', lines, 'adversarial and random programs on both engines over guard-paged scratchpad and dataset (a fault is an out-of-bounds event), write set = specification write set, code-buffer layout after worst-case programs')
     # public hashing API: scratchpads allocated by the library are placed between inaccessible pages, the input ends at a page end,
     # the 32 output bytes end at a page end and are preceded by a canary
@@ -54,6 +54,8 @@ def run():
     ck.cov['engine_runs'] = len(runs)
     ck.cov['codegen_cases'] = sum(1 for l in lines if l.startswith('{"e":"codegen"'))
     ck.cov['max_code_position'] = max([json.loads(l)['codePos'] for l in lines if l.startswith('{"e":"codegen"')] or [0])
+    ck.cov['code_budget'] = {'instruction_word_classes_encoded': sum(json.loads(l)['combos'] for l in lines if l.startswith('{"e":"codelen"')),
+                             'bound': 'base(flags) + program size x longest encoding <= start of the SuperscalarHash area, for all 8 flag sets', 'flag_sets': sum(1 for l in lines if l.startswith('{"e":"codebase"'))}
     ck.cov['guarded_api_hashes'] = sum(1 for l in alines if l.startswith('{"e":"Hash'))
     ck.cov['rule'] = ('programs: one worst-case-length encoding in all 384 slots for 12 instruction kinds (extreme and random operands), all-ones ma/mx with maximal dataset offset, random programs; '
                       'each on 4 engines, 2 and 2048 iterations, over a scratchpad between PROT_NONE pages and a dataset whose extent ends at a PROT_NONE page; code generation of the same programs '
